@@ -197,6 +197,33 @@ theorem C11_wire_connect_back (t : CT) (o : Bool) :
     (connectBackWire t o).1 = o ∧ txOK t o (connectBackWire t o).2 = true ∧ rxOK t o (connectBackWire t o).2 = true := by
   cases t <;> cases o <;> exact ⟨rfl, rfl, rfl⟩
 
+/-- Connect-back from the message up, over EVERY port situation of the ConnectToPeer — clear / obfuscated port present, 0
+or (the obfuscated one) absent from the message, also no usable port at all — every preference, type and outcome of the
+dial: when the task is over the asking peer has been answered exactly one way — PeerPierceFirewall when connect and write
+succeeded (then the connection is registered, was dialled on a real port and is what `C11_wire_connect_back` is about),
+CannotConnect to the server otherwise (nothing stays registered); the dial is `select_port`'s choice
+(`C11_select_port`); and a request without any port is answered with CannotConnect. -/
+theorem C11_connect_back_every_port_situation (t : CT) (prefer : Bool) (port : Nat) (obfs : Option Nat) (how : BackHow)
+    (r : BackOut) (h : connectBack t prefer port obfs how = some r) :
+    (r.pierced = true ∨ r.cc = true) ∧ (r.pierced = true ↔ how = .ok) ∧ (r.cc = true ↔ how ≠ .ok) ∧
+    (r.pierced = true → r.registered = true ∧ r.dial.1 ≠ 0 ∧ r.wire = some (connectBackWire t r.dial.2)) ∧
+    (r.cc = true → r.registered = false ∧ r.wire = none) ∧
+    r.dial = selectPort prefer port (obfs.getD 0) ∧
+    (port = 0 → obfs.getD 0 = 0 → r.dial.1 = 0 ∧ r.cc = true) := by
+  simp only [connectBack] at h
+  split at h
+  · exact absurd h (by simp)
+  · rename_i hn
+    cases how <;> simp only [Option.some.injEq] at h <;> subst h <;>
+      simp_all [selectPort_zero, connectBackWire, Wire.fresh]
+
+/-- … and the model answers every request the environment can produce: only "port 0 was dialled and the connect did not
+fail" is excluded. -/
+theorem C11_connect_back_total (t : CT) (prefer : Bool) (port : Nat) (obfs : Option Nat) (how : BackHow) :
+    connectBack t prefer port obfs how = none ↔ (port = 0 ∧ obfs.getD 0 = 0 ∧ how ≠ .refused) := by
+  simp only [connectBack, selectPort_zero]
+  cases how <;> simp
+
 /-! Non-vacuity -/
 
 -- race: the direct attempt wins (no listener suspends: each notification is acknowledged at once) while the indirect
@@ -258,5 +285,16 @@ example : usable (xrun .peer false .race false false [.note .dConnecting, .conne
 example : (Conn.run [.new .back false false, .at 0 .connectFail]).conns.map (fun c => (c.k.att, c.evs)) =
     [(.idle, [.st .connecting .unknown, .st .closing .connectFailed, .st .closed .connectFailed, .attRes .fail, .cc])] := by
   decide
+-- the class of seeded/C11-n: a ConnectToPeer with no port at all (clear 0, obfuscated-port fields absent / 0): port 0 is
+-- dialled, refused, and the server is told CannotConnect; with a port that accepts, the peer is pierced instead
+example : connectBack .peer false 0 none .refused =
+    some { dial := (0, true), pierced := false, cc := true, registered := false, wire := none } := by decide
+example : connectBack .file true 0 (some 0) .refused =
+    some { dial := (0, true), pierced := false, cc := true, registered := false, wire := none } := by decide
+example : connectBack .file true 2234 (some 2235) .ok =
+    some { dial := (2235, true), pierced := true, cc := false, registered := true,
+           wire := some (true, { obf := false, fin := true, reader := false }) } := by decide
+example : connectBack .peer true 2234 none .writeFails =
+    some { dial := (2234, false), pierced := false, cc := true, registered := false, wire := none } := by decide
 
 end AioslskVerif.C11
